@@ -19,6 +19,8 @@ const smtDefs = `(define-fun godiv ((a Int) (b Int)) Int (ite (>= a 0) (ite (> b
 (define-fun gomod ((a Int) (b Int)) Int (- a (* b (godiv a b))))
 (declare-fun fresh$ (Int) Bool)
 (declare-fun allocid$ (Int) Int)
+(declare-fun idx$ (Int Int) Int)
+(assert (forall ((a Int) (b Int)) (! (= (idx$ a b) (+ a b)) :pattern ((idx$ a b)))))
 (declare-fun atbv (Str Int) (_ BitVec 8))
 (declare-fun pow2big (Int) Int)
 `
